@@ -39,6 +39,10 @@ META = {
 
 
 def run(ctx):
+    if ctx.replay:
+        # the check is deterministic for a (tier, seed): a replay is the full run under the recorded ones
+        d = json.load(open(ctx.replay))
+        ctx.seed, ctx.tier = int(d.get("seed", ctx.seed)), d.get("tier", ctx.tier)
     # 1. toy model: TLC enumerates the mapping lists, checks both definitions, exports
     r = ctx.tlc("Registry", ctx.pick("Registry_quick.cfg", "Registry.cfg"), timeout=900)
     toy = r.printed_json("TOY")
